@@ -23,8 +23,8 @@ type hookCfg struct {
 
 var moments = []string{"before_START_ACTIVITY", "leave_CONFIGURED", "enter_RUNNING", "after_START_ACTIVITY"}
 var mIdx = map[string]int{"before_START_ACTIVITY": 0, "leave_CONFIGURED": 1, "enter_RUNNING": 3, "after_START_ACTIVITY": 4}
-var outcomes = []coresim.Outcome{coresim.OK, coresim.ErrSource, coresim.ErrError, coresim.Silent, coresim.Undeliverable}
-var outName = map[coresim.Outcome]string{coresim.OK: "exit0", coresim.ErrSource: "exit3", coresim.ErrError: "involuntary", coresim.Silent: "timeout", coresim.Undeliverable: "trigger-error"}
+var outcomes = []coresim.Outcome{coresim.OK, coresim.ErrSource, coresim.ErrError, coresim.Silent, coresim.Undeliverable, coresim.Dies}
+var outName = map[coresim.Outcome]string{coresim.OK: "exit0", coresim.ErrSource: "exit3", coresim.ErrError: "involuntary", coresim.Silent: "timeout", coresim.Undeliverable: "trigger-error", coresim.Dies: "killed-by-signal"}
 
 type wfCase struct {
 	name  string
